@@ -36,6 +36,9 @@ var quietOnce sync.Once
 
 func Quiet() {
 	quietOnce.Do(func() {
+		if os.Getenv("VERIF_VERBOSE") != "" {
+			return
+		}
 		util.LogTeeWriter(nopWriter{})
 		util.SetPrintLogger(nopWriter{})
 	})
